@@ -65,6 +65,10 @@ def cab_set(rng, big=True):
     for idx in chosen:
         fi, bi, ln = pts[idx]
         cuts.append((fi, bi, rng.choice([0, 1, ln // 2, max(ln - 1, 0), ln])))
+    # sometimes a cabinet ends exactly where a folder ends (no split block at that boundary)
+    for fi in range(len(c.folders) - 1):
+        if rng.random() < 0.35 and len(cuts) < 4: cuts.append((fi, "end", 0))
+    cuts.sort(key=lambda t: (t[0], 1 << 30 if t[1] == "end" else t[1], t[2]))
     kw = {}
     if rng.random() < 0.5: kw["hres"] = b"h" * rng.choice([0, 3]); kw["dres"] = b"d" * rng.choice([0, 2, 9])
     kw["set_id"] = rng.randrange(65536)
